@@ -280,6 +280,9 @@ def program_check(pairs, checker, col=None):
             lines.append("    " + c05.header([("pk", "self", False)] + list(fp), "m").replace(": pass", ": ..."))
             lines.append(f"class Impl{i}:")
             lines.append("    " + c05.header([("pk", "self", False)] + list(gp), "m"))
+            # the same implementation as an explicit subclass of the protocol (nominal route)
+            lines.append(f"class ImplX{i}(P{i}):")
+            lines.append("    " + c05.header([("pk", "self", False)] + list(gp), "m"))
             lines.append(f"def want_p{i}(x: P{i}) -> None: ...")
             lines.append(f"class CB{i}(Protocol):")
             lines.append("    " + c05.header([("pk", "self", False)] + list(fp), "__call__").replace(": pass", ": ..."))
@@ -295,6 +298,8 @@ def program_check(pairs, checker, col=None):
         if not any(k == "po" for k, _, _ in list(fp) + list(gp)):
             lines.append(f"    want_p{i}(Impl{i}())")
             lmap[len(lines)] = (i, "protocol-method")
+            lines.append(f"    want_p{i}(ImplX{i}())")
+            lmap[len(lines)] = (i, "protocol-method-explicit")
             lines.append(f"    want_cb{i}(g{i})")
             lmap[len(lines)] = (i, "callback-protocol")
     from pyanalyze.error_code import ErrorCode
@@ -328,7 +333,7 @@ def program_check(pairs, checker, col=None):
         # override: self is bound in both, so compare the remaining parameters
         if any(k == "po" for k, _, _ in fp + gp):
             continue  # `self` before a positional-only marker would change the header's meaning
-        for route in ("protocol-method", "callback-protocol"):
+        for route in ("protocol-method", "protocol-method-explicit", "callback-protocol"):
             acc = (i, route) not in diag
             if col is not None:
                 col.case(nontrivial_id=(route, c05.header(fp), c05.header(gp)) if acc and fp != gp else None,
@@ -338,7 +343,7 @@ def program_check(pairs, checker, col=None):
                 names = [nm for k, nm, _ in list(fp) + list(gp) if k in ("po", "pk", "ko")] + ["zz"]
                 ce = counterexample(f, g, names)
                 if ce is not None:
-                    what = (f"`class Impl: {c05.header(gp, 'm')}` is accepted where a protocol with `{c05.header(fp, 'm')}` is expected" if route == "protocol-method"
+                    what = (f"`class Impl{'(P)' if route.endswith('explicit') else ''}: {c05.header(gp, 'm')}` is accepted where a protocol P with `{c05.header(fp, 'm')}` is expected" if route.startswith("protocol-method")
                             else f"`{c05.header(gp, 'g')}` is accepted where a callback protocol with `{c05.header(fp, '__call__')}` is expected")
                     fails.append((f"prog-{route}|{classify(fp, gp, ce)}", f"{what} but ({ce}) binds for the expected signature and raises TypeError for the actual one", fp, gp))
         acc_o = (i, "override") not in diag
